@@ -1,6 +1,7 @@
 package sim
 
 import (
+	"context"
 	"fmt"
 	"runtime"
 	"strings"
@@ -22,6 +23,7 @@ type concWorld struct {
 	res         []*OpResult
 	tasks       []*Task
 	incarnation int
+	abandon     bool // requests get a client context of their own, which the schedule may cancel
 }
 
 func newW1(t *testing.T, rc *RunCtx, cfg SchedCfg, plan *FaultPlan) *concWorld {
@@ -51,6 +53,11 @@ func (w *concWorld) submit(ops []*Op) {
 		t := w.s.Spawn(fmt.Sprintf("op%d:%s", i, o.Kind), inst, func(t *Task) {
 			w.res[idx] = o.Exec(inst)
 		})
+		if w.abandon {
+			var cancel context.CancelFunc
+			o.base, cancel = context.WithCancel(inst.Ctx)
+			t.Cancel = cancel
+		}
 		w.tasks = append(w.tasks, t)
 	}
 }
@@ -161,8 +168,34 @@ func genConcOps(rc *RunCtx, nKeys, nOps int, withOdd bool) []*Op {
 // --- porcupine model -------------------------------------------------------------------------
 
 type linInput struct {
-	op    *Op
-	final bool
+	op        *Op
+	final     bool
+	abandoned bool
+}
+
+// linModelAbandon is linModel for histories in which clients abandoned requests in flight.
+func linModelAbandon(nAccts int) porcupine.Model {
+	det := linModel(nAccts)
+	nm := porcupine.NondeterministicModel{
+		Init: func() []interface{} { return []interface{}{NewModelState(nAccts)} },
+		Step: func(state, input, output interface{}) []interface{} {
+			in := input.(linInput)
+			if !in.abandoned {
+				if ok, ns := det.Step(state, input, output); ok {
+					return []interface{}{ns}
+				}
+				return nil
+			}
+			var out []interface{}
+			for _, st := range state.(*ModelState).ApplyAbandoned(in.op, output.(linOutput).ok) {
+				out = append(out, st)
+			}
+			return out
+		},
+		Equal:             det.Equal,
+		DescribeOperation: det.DescribeOperation,
+	}
+	return nm.ToModel()
 }
 
 type linOutput struct {
@@ -240,6 +273,7 @@ func okVector(r *OpResult, n int) []bool {
 func (w *concWorld) checkLinearizable(finalExport map[string]Watermark) (string, string) {
 	var hist []porcupine.Operation
 	last := int64(0)
+	abandoned := false
 	for i, t := range w.tasks {
 		if !t.Completed || w.res[i] == nil {
 			continue
@@ -248,14 +282,21 @@ func (w *concWorld) checkLinearizable(finalExport map[string]Watermark) (string,
 		if ret > last {
 			last = ret
 		}
-		hist = append(hist, porcupine.Operation{ClientId: t.ID, Input: linInput{op: w.ops[i]},
+		if t.Cancelled {
+			abandoned = true
+		}
+		hist = append(hist, porcupine.Operation{ClientId: t.ID, Input: linInput{op: w.ops[i], abandoned: t.Cancelled},
 			Call: call, Output: linOutput{ok: okVector(w.res[i], len(w.ops[i].Entries))}, Return: ret})
 	}
 	if finalExport != nil {
 		hist = append(hist, porcupine.Operation{ClientId: len(w.tasks) + 1, Input: linInput{final: true}, Call: last + 1,
 			Output: linOutput{export: exportByAcct(w.pop, finalExport)}, Return: last + 2})
 	}
-	res, _ := porcupine.CheckOperationsVerbose(linModel(len(w.pop.Accts)), hist, 10*time.Second)
+	model := linModel(len(w.pop.Accts))
+	if abandoned {
+		model = linModelAbandon(len(w.pop.Accts))
+	}
+	res, _ := porcupine.CheckOperationsVerbose(model, hist, 10*time.Second)
 	var sb strings.Builder
 	for _, h := range hist {
 		in := h.Input.(linInput)
@@ -288,6 +329,7 @@ func (w *concWorld) sequentialAgrees() bool {
 		defer inst.Close()
 		m := NewModelState(len(w.pop.Accts))
 		for _, o := range w.ops {
+			o := &Op{Kind: o.Kind, Client: o.Client, IP: o.IP, Entries: o.Entries}
 			r := o.Exec(inst)
 			want := m.Apply(o)
 			got := okVector(r, len(o.Entries))
@@ -319,17 +361,50 @@ func runConc(t *testing.T, rc *RunCtx, prop string) {
 	for _, o := range ops {
 		budget += 14 + 8*len(o.Entries)
 	}
-	w := newW1(t, rc, SchedCfg{StayBias: stay, MaxSteps: 8 * budget, DeadlockProperty: prop}, nil)
+	// In a third of the runs clients may abandon requests that are in flight (the request context is
+	// cancelled at a point the schedule chooses, independently of which thread runs next).
+	abandon := ch.Pick(3, 0) == 2
+	cfg := SchedCfg{StayBias: stay, MaxSteps: 8 * budget, DeadlockProperty: prop}
+	var w *concWorld
+	if abandon {
+		cfg.Action = func(s *Sched, parked []*Park) bool {
+			if !w.abandon {
+				return false
+			}
+			var live []*Task
+			for _, tk := range w.tasks {
+				if tk.Started && !tk.Done && !tk.Cancelled && tk.Cancel != nil {
+					live = append(live, tk)
+				}
+			}
+			if len(live) == 0 {
+				return false
+			}
+			k := ch.Pick(len(live)+1, 0.8)
+			if k == 0 {
+				return false
+			}
+			tk := live[k-1]
+			tk.Cancelled = true
+			rc.Stats.Inc("client_abandons_request_in_flight", 1)
+			rc.Logf("s%d client abandons %s", s.Step, tk.Name)
+			tk.Cancel()
+			return true
+		}
+	}
+	w = newW1(t, rc, cfg, nil)
 	defer w.close()
+	w.abandon = abandon
 	w.submit(ops)
 	outcome := w.s.Run()
+	w.abandon = false
 	rc.Stats.Inc("outcome_"+outcome, 1)
 	rc.Stats.Seen("schedules", w.s.ScheduleSignature())
 	desc := make([]string, len(ops))
 	for i, o := range ops {
 		desc[i] = o.String()
 	}
-	rc.Sample = map[string]any{"keys": nKeys, "gomaxprocs": procs, "stay_bias": stay, "ops": desc, "steps": w.s.Step, "outcome": outcome}
+	rc.Sample = map[string]any{"keys": nKeys, "gomaxprocs": procs, "stay_bias": stay, "clients_may_abandon": abandon, "ops": desc, "steps": w.s.Step, "outcome": outcome}
 	if outcome == "truncated" {
 		rc.Stats.Inc("truncated", 1)
 		return
